@@ -81,6 +81,9 @@ def make_data(rng, n, samples=1, grid=5, style="gauss", outlier_prob=0.0, spread
         for s in range(samples):
             if style == "flat":
                 row = np.zeros(grid)
+            elif style == "narrow":
+                # dynamic range far inside the FFT path's accuracy window (every entry stays above 1e-4 of the row peak)
+                row = np.array([rng.uniform(-0.5, 0.5) for _ in range(grid)])
             elif style == "peaked":
                 mu = rng.random()
                 sd = 0.08 + 0.3 * rng.random()
